@@ -95,7 +95,7 @@ PLAN = {
     "C06": dict(
         title="Objective functions return the documented loss and gradient",
         level="proof",
-        verus=["C06_objectives.rs", "C06_loss_whole.rs"],
+        verus=["C06_objectives.rs", "C06_loss_whole.rs", "C15_clamp_whole.rs"],
         kani=True,
         native_checks=[("objective.derivative", "bounded native grid: for AE / MSE / BCE / KL the reported gradient against central difference quotients of the reported loss, both ranks")],
         undecided_clauses=["the whole loss() of every objective is proved for every size of both ranks (units *.loss.whole) against contracts of Tensor::single / triple / clamp / get_flat; "
@@ -187,11 +187,12 @@ PLAN = {
     "C15": dict(
         title="Element-wise tensor arithmetic is exact, rank-generic and shape-checked",
         level="proof",
-        verus=["C15_tensor_ops.rs", "C15_transpose.rs", "C15_mean_pick.rs", "C15_dot_product.rs"],
+        verus=["C15_tensor_ops.rs", "C15_transpose.rs", "C15_mean_pick.rs", "C15_dot_product.rs", "C15_clamp_whole.rs", "C15_inplace_whole.rs"],
         kani=True,
-        undecided_clauses=["iterator zips of the element-wise operations over more cells than the listed small shapes (the element formula itself is proved for every cell); "
-                           "dot and the outer product are proved as whole functions for every size (units tensor.dot, tensor.product; R22, R31, R50)",
-                           "nested-list add / div (recursion over Tensor)"],
+        undecided_clauses=["add / sub / mul / scaled Hadamard / div-by-scalar in place and clamp are proved as WHOLE functions for every size of ranks 1-D..4-D (units tensor.*.whole, tensor.clamp; R57-R59), "
+                           "dot and the outer product too (units tensor.dot, tensor.product; R22, R31, R50); the mean over k tensors stays at closure units + bounded harnesses",
+                           "nested-list add / div (recursion over Tensor): those arms are skipped in the whole-function units (logged); bounded harnesses only",
+                           "that a shape mismatch IS refused (panics): Verus proves the panic unreachable when the shapes agree; the refusal itself is the Kani should-panic harnesses"],
     ),
     "C16": dict(
         title="Skip connections combine source and target inputs as configured",
@@ -414,13 +415,15 @@ MANIFEST_TEXT = {
     ),
     "C15": dict(
         category="proof",
-        technique="Verus formula contracts on the 31 element closures / statements of the tensor ops (all rank copies tied to one formula) + Kani per op x rank on small shapes",
+        technique="Verus contracts on the WHOLE in-place operations (add, sub, mul, scaled Hadamard, div by scalar, clamp; dot, outer product) for every size + formula contracts on the 31 element closures + Kani per op x rank on small shapes",
         design_ref="DESIGN.md §5 C15",
         text="Verus proves for every cell of every shape that each rank copy (1-D..4-D) of add/sub/mul/div-by-scalar/scaled Hadamard/clamp/mean "
-             "computes the one documented element expression (IEEE operator on the operand cells). Kani runs the real functions on small shapes "
+             "computes the one documented element expression (IEEE operator on the operand cells), and - units tensor.add_inplace/sub_inplace/mul_inplace/hadamard/div_scalar_inplace.whole, "
+             "tensor.clamp (R57, R58, R59) - that each WHOLE function, for operands of every size of ranks 1-D to 4-D, leaves the shape field unchanged, keeps the length at every nesting level, "
+             "writes at every position both operands have the operator applied to the two cells at that position, and leaves every other position untouched (what `zip` does when lengths differ). Kani runs the real functions on small shapes "
              "of every rank with symbolic contents: result cell = operator on the cells at the same index, shape unchanged and consistent, "
              "mismatched shapes refused; dot / outer product against their index definitions; clamp into the interval for every f32 (complete).",
-        note="F1 uninterpreted floats in Verus; iterator zip order covered by the bounded harnesses only.",
+        note="F1 uninterpreted floats in Verus; iterator zip / for_each order enters through R57 / R58 (index loops); nested-list arms skipped; `Shape: PartialEq` by contract (structural equality).",
     ),
     "C16": dict(
         category="proof",
